@@ -336,8 +336,9 @@ def run_check(mod, tier, seed):
         wall_s=round(time.time() - t0, 2),
         violations=int(n_viol),
     )
-    os.makedirs(os.path.join(VERIF, "evidence"), exist_ok=True)
-    epath = os.path.join(VERIF, "evidence", pid + ".json")
+    edir = os.environ.get("VERIF_EVIDENCE_DIR") or os.path.join(VERIF, "evidence")  # override: mutant campaigns only
+    os.makedirs(edir, exist_ok=True)
+    epath = os.path.join(edir, pid + ".json")
     with open(epath, "w") as f:
         json.dump(ev, f, indent=1, default=_np_default)
     for ln in lines:
